@@ -238,6 +238,21 @@ def run_check(args):
         else:
             print("HARNESS: violation did not reproduce in a fresh interpreter:\n" + p.stdout[-600:] + p.stderr[-600:])
             rc = 2
+    # determinism re-check: a sample of the sessions is executed once more in
+    # this (different) interpreter and must give the same event-log digest
+    recheck = {"sessions": 0, "differing": []}
+    if rc == 0 and results:
+        ok0 = [r for r in results if not r.get("harness") and (r.get("cfg") or {}).get("hash_class", 0) == 0]
+        step = max(1, len(ok0) // (8 if tier == "quick" else 40))
+        for r in ok0[::step][: (8 if tier == "quick" else 40)]:
+            r2 = execute(prop, seed=args.seed, idx=r["idx"], tier=tier)
+            recheck["sessions"] += 1
+            if r2.get("digest") != r.get("digest"):
+                recheck["differing"].append(r["idx"])
+        if recheck["differing"]:
+            print("HARNESS: sessions %s are not deterministic (digest differs on re-execution)" % recheck["differing"][:5])
+            rc = 2
+    args._recheck = recheck
     if harness and rc == 0:
         print("HARNESS errors in %d runs; first: run %s: %s" % (len(harness), harness[0]["idx"], harness[0]["harness"][-1200:]))
         rc = 2
@@ -327,6 +342,7 @@ def write_evidence(args, prop, tier, results, viol_runs, known_hits, other, harn
             "other_property_alarms_seen": dict(other),
             "known_finding_hits": sorted(known_hits),
             "harness_errors": len(harness),
+            "determinism_recheck": getattr(args, "_recheck", None),
             "worker_errors": errors[:3],
             "real_components": ["sysloss (all of it, from /repo/src working tree)", "rustworkx", "numpy", "scipy", "pandas", "json", "toml", "pydot graph building and serialisation", "tqdm", "rich", "matplotlib (Agg)"],
             "stubbed_components": ["disk (SimDisk behind sysloss.system.open / sysloss.components.open / pydot.core.open)", "clock (SimClock behind tqdm.std.time)", "battery model callbacks (SimPeer)", "graphviz dot subprocess (SimProc behind pydot.core.call_graphviz; real /usr/bin/dot on a sample for C19)", "console (rich print capture)"],
